@@ -88,41 +88,60 @@ def instantLt (a b : Instant) : Bool := decide (a.1 < b.1) || (a.1 == b.1 && dec
 def minYear : Int := -262143
 def maxYear : Int := 262142
 
-/-- `DateTime::parse_from_str(s, "%Y-%m-%d %H:%M:%S %z")` as an instant -/
-def chronoParse (s : List Char) : Option Instant := do
-  -- %Y
-  let s := trimStartWs s
-  let (year, s) ← (match s with
-    | '-' :: r => (scanNumber r r.length).map fun (v, r') => (-(v : Int), r')
-    | '+' :: r => (scanNumber r r.length).map fun (v, r') => ((v : Int), r')
-    | _ => (scanNumber s 4).map fun (v, r') => ((v : Int), r'))
+structure Fields where
+  year : Int
+  month : Nat
+  day : Nat
+  hour : Nat
+  minute : Nat
+  second : Nat
+  off : Int
+  deriving Repr, DecidableEq
+
+/-- `%Y`: optional sign (then any number of digits), else at most four digits -/
+def parseYear (s : List Char) : Option (Int × List Char) :=
+  match trimStartWs s with
+  | '-' :: r => (scanNumber r r.length).map fun (v, r') => (-(v : Int), r')
+  | '+' :: r => (scanNumber r r.length).map fun (v, r') => ((v : Int), r')
+  | s' => (scanNumber s' 4).map fun (v, r') => ((v : Int), r')
+
+/-- a two-digit numeric item: `trim_start`, then one or two digits -/
+def parseNum2 (s : List Char) : Option (Nat × List Char) := scanNumber (trimStartWs s) 2
+
+/-- the item loop of `format::parse` for `%Y-%m-%d %H:%M:%S %z`; the whole input must be consumed -/
+def parseFields (s : List Char) : Option Fields := do
+  let (year, s) ← parseYear s
   let s ← literal '-' s
-  -- %m
-  let (month, s) ← scanNumber (trimStartWs s) 2
-  if month < 1 ∨ month > 12 then none
+  let (month, s) ← parseNum2 s
   let s ← literal '-' s
-  -- %d
-  let (day, s) ← scanNumber (trimStartWs s) 2
-  if day < 1 ∨ day > 31 then none
-  -- ' ' %H
-  let (hour, s) ← scanNumber (trimStartWs (trimStartWs s)) 2
-  if hour > 23 then none
+  let (day, s) ← parseNum2 s
+  let (hour, s) ← parseNum2 (trimStartWs s)
   let s ← literal ':' s
-  let (minute, s) ← scanNumber (trimStartWs s) 2
-  if minute > 59 then none
+  let (minute, s) ← parseNum2 s
   let s ← literal ':' s
-  let (second, s) ← scanNumber (trimStartWs s) 2
-  if second > 60 then none
-  -- ' ' %z
+  let (second, s) ← parseNum2 s
   let (off, s) ← scanOffset (trimStartWs (trimStartWs s))
   if s ≠ [] then none
-  -- Parsed::to_datetime
-  if year < minYear ∨ year > maxYear then none
-  if day > daysInMonth year month then none
-  if off ≤ -86400 ∨ off ≥ 86400 then none
-  let (sec, frac) := if second = 60 then (59, 1000000000) else (second, 0)
-  let utc := epochOf year month day hour minute sec - off
-  if utc < daysFromCivil minYear 1 1 * 86400 ∨ utc ≥ (daysFromCivil maxYear 12 31 + 1) * 86400 then none
-  some (utc, frac)
+  some ⟨year, month, day, hour, minute, second, off⟩
+
+/-- the range checks of the `Parsed::set_*` methods and of `Parsed::to_datetime` -/
+def resolve (f : Fields) : Option Instant :=
+  if f.month < 1 ∨ f.month > 12 then none
+  else if f.day < 1 ∨ f.day > 31 then none
+  else if f.hour > 23 then none
+  else if f.minute > 59 then none
+  else if f.second > 60 then none
+  else if f.year < minYear ∨ f.year > maxYear then none
+  else if f.day > daysInMonth f.year f.month then none
+  else if f.off ≤ -86400 ∨ f.off ≥ 86400 then none
+  else
+    let sec := if f.second = 60 then 59 else f.second
+    let frac := if f.second = 60 then 1000000000 else 0
+    let utc := epochOf f.year f.month f.day f.hour f.minute sec - f.off
+    if utc < daysFromCivil minYear 1 1 * 86400 ∨ utc ≥ (daysFromCivil maxYear 12 31 + 1) * 86400 then none
+    else some (utc, frac)
+
+/-- `DateTime::parse_from_str(s, "%Y-%m-%d %H:%M:%S %z")` as an instant -/
+def chronoParse (s : List Char) : Option Instant := (parseFields s).bind resolve
 
 end Chiritori
